@@ -15,9 +15,16 @@ pub enum Policy {
     FourSteps,
     RepSeek,
     Restore,
+    /// one reversible step and a pass per turn, undone next turn: the shortest route back to a position
+    Shuttle,
+    /// walks, with exactly three steps, into a position in which the mover has no step left, and
+    /// passes; otherwise behaves like `Shuttle`.  When both sides keep undoing their turns the
+    /// same dead end is reached again and again, until the pass there is withheld as a third
+    /// occurrence: a fourth-step state of an unfinished-looking game with an empty action list.
+    StaleSeek,
 }
 
-pub const POLICIES: [Policy; 7] = [Policy::Uniform, Policy::PushPull, Policy::Capture, Policy::PassOften, Policy::FourSteps, Policy::RepSeek, Policy::Restore];
+pub const POLICIES: [Policy; 9] = [Policy::Uniform, Policy::PushPull, Policy::Capture, Policy::PassOften, Policy::FourSteps, Policy::RepSeek, Policy::Restore, Policy::Shuttle, Policy::StaleSeek];
 
 /// Random material within the legal complement, three density regimes; `legal` removes hanging
 /// trap pieces; rabbits are kept off both goal ranks (keep-alive).
@@ -87,11 +94,14 @@ pub struct Player {
     this_turn: Vec<Action>,
     plan: Vec<Action>,
     pub keep_alive: bool,
+    /// placements still to be made in the setup phase (a stack: the last entry is played next);
+    /// when empty or not offered, a placement is drawn uniformly from the offered piece types
+    pub setup_plan: Vec<Action>,
 }
 
 impl Player {
     pub fn new(policy: Policy, keep_alive: bool) -> Self {
-        Player { policy, last_turn: [vec![], vec![]], this_turn: vec![], plan: vec![], keep_alive }
+        Player { policy, last_turn: [vec![], vec![]], this_turn: vec![], plan: vec![], keep_alive, setup_plan: vec![] }
     }
 
     fn filter_alive(&self, s: &GameState, va: &[Action]) -> Vec<Action> {
@@ -140,6 +150,12 @@ impl Player {
                 self.plan = p;
             }
         }
+        if step == 0 && self.policy == Policy::StaleSeek && rng.chance(5, 6) {
+            if let Some(mut p) = stale_plan(g, 4000, rng) {
+                p.reverse();
+                self.plan = p;
+            }
+        }
         if step == 0 && self.policy == Policy::Restore && rng.chance(4, 5) {
             if let Some(mut p) = restore_plan(g, 2500) {
                 p.reverse();
@@ -149,6 +165,33 @@ impl Player {
         let cands = self.filter_alive(s, va);
         let ab = arr(s.piece_board());
         let pick = match self.policy {
+            Policy::Shuttle | Policy::StaleSeek => {
+                let me = s.is_p1_turn_to_move();
+                let planned = if self.policy == Policy::StaleSeek { self.plan.pop() } else { None };
+                if let Some(a) = planned.filter(|a| va.contains(a)) {
+                    a
+                } else if step >= 1 {
+                    if va.contains(&Action::Pass) {
+                        Action::Pass
+                    } else {
+                        *rng.pick(&cands)
+                    }
+                } else {
+                    // undo the own previous step if possible, else a reversible (non-rabbit, own) step
+                    let undo = self.last_turn[side].first().and_then(inverse).filter(|a| va.contains(a));
+                    match undo {
+                        Some(a) => a,
+                        None => {
+                            let c: Vec<Action> = cands.iter().cloned().filter(|a| matches!(a, Action::Move(q, _) if matches!(ab[q.index()], Some((gg, t)) if gg == me && t != 0))).collect();
+                            if c.is_empty() {
+                                *rng.pick(&cands)
+                            } else {
+                                *rng.pick(&c)
+                            }
+                        }
+                    }
+                }
+            }
             Policy::RepSeek | Policy::Restore => {
                 if let Some(a) = self.plan.pop() {
                     if va.contains(&a) {
@@ -216,6 +259,53 @@ impl Player {
     }
 }
 
+/// All three-step sequences of the side to move (rule-only lists) that end in a state where the
+/// mover has no step left; prefers the one whose board was a start-of-turn position (opponent to
+/// move) most often.  The plan ends with a pass.
+pub fn stale_plan(g: &Game, budget: usize, rng: &mut Rng) -> Option<Vec<Action>> {
+    let side = g.state.is_p1_turn_to_move();
+    let mut frontier: Vec<(GameState, Vec<Action>)> = vec![(g.state.clone(), vec![])];
+    let mut nodes = 0;
+    for _depth in 0..3 {
+        let mut next = vec![];
+        for (st, path) in &frontier {
+            let Some(va) = guard(|| st.valid_actions_no_rep()) else { continue };
+            for a in va {
+                if !matches!(a, Action::Move(q, _) if q.index() < 64) {
+                    continue;
+                }
+                nodes += 1;
+                if nodes > budget {
+                    return None;
+                }
+                let Some(n) = guard(|| st.take_action(&a)) else { continue };
+                if n.is_p1_turn_to_move() != side || !n.is_play_phase() {
+                    continue;
+                }
+                let mut p = path.clone();
+                p.push(a);
+                next.push((n, p));
+            }
+        }
+        frontier = next;
+    }
+    let mut best: Vec<(usize, Vec<Action>)> = vec![];
+    for (st, path) in frontier {
+        let Some(va) = guard(|| st.valid_actions_no_rep()) else { continue };
+        if va.iter().any(|a| matches!(a, Action::Move(_, _))) {
+            continue;
+        }
+        let k = (arr(st.piece_board()), !side);
+        let seen = g.starts.iter().filter(|t| **t == k).count();
+        best.push((seen, path));
+    }
+    let top = best.iter().map(|b| b.0).max()?;
+    let cands: Vec<&(usize, Vec<Action>)> = best.iter().filter(|b| b.0 == top).collect();
+    let mut p = rng.pick(&cands).1.clone();
+    p.push(Action::Pass);
+    Some(p)
+}
+
 /// Breadth-first search (rule-only lists, depth <= 4) for a turn of the side to move whose result
 /// is an earlier start-of-turn position: manufactures short repetition cycles, including the ones
 /// in which the opponent's move is undone by a push or pull.
@@ -271,7 +361,10 @@ pub fn playout(g: &mut Game, player: &mut Player, max_plies: usize, rng: &mut Rn
         } else if s.is_play_phase() {
             Some(player.choose(g, &va, rng))
         } else {
-            Some(*rng.pick(&va))
+            match player.setup_plan.pop() {
+                Some(a) if va.contains(&a) => Some(a),
+                _ => Some(*rng.pick(&va)),
+            }
         };
         if rng.chance(em.obs_pm, 1000) {
             sink.emit(&format!("S {}", enc_state(&s, g.init_hash)), "ok");
@@ -317,7 +410,56 @@ pub fn playout(g: &mut Game, player: &mut Player, max_plies: usize, rng: &mut Rn
 pub fn setup_walk(rng: &mut Rng, rep: &mut Report, sink: &mut Sink, em: Emit, continue_plies: usize, policy: Policy) {
     let mut g = Game::initial();
     let mut player = Player::new(policy, true);
+    // three walks in four place both armies in a uniformly drawn order of the 16 pieces (so that
+    // every piece type is equally likely on every home square, the last one included); the fourth
+    // draws each placement uniformly from the offered types
+    if rng.chance(3, 4) {
+        let g_order = army_order(rng, None, None);
+        let s_order = army_order(rng, None, None);
+        player.setup_plan = plan_of(&g_order, &s_order);
+    }
     playout(&mut g, &mut player, 32 + continue_plies, rng, rep, sink, em);
+}
+
+/// the 16 pieces of one army in a uniformly random order; `first` / `last` force the type placed
+/// first / last (types: 0 rabbit .. 5 elephant)
+pub fn army_order(rng: &mut Rng, first: Option<u8>, last: Option<u8>) -> Vec<u8> {
+    let mut v: Vec<u8> = vec![5, 4, 3, 3, 2, 2, 1, 1, 0, 0, 0, 0, 0, 0, 0, 0];
+    for i in (1..v.len()).rev() {
+        let j = rng.below(i + 1);
+        v.swap(i, j);
+    }
+    if let Some(t) = first {
+        let k = v.iter().position(|x| *x == t).unwrap();
+        v.swap(0, k);
+    }
+    if let Some(t) = last {
+        if let Some(k) = v.iter().skip(1).position(|x| *x == t) {
+            v.swap(15, k + 1);
+        }
+    }
+    v
+}
+
+fn plan_of(gold: &[u8], silver: &[u8]) -> Vec<Action> {
+    let mut p: Vec<Action> = gold.iter().chain(silver.iter()).map(|t| Action::Place(piece_of(*t))).collect();
+    p.reverse();
+    p
+}
+
+/// every (type of Gold's last piece, type of Silver's last piece) and every pair of first pieces:
+/// the hand-over after the 16th placement and the first placement for each piece type
+pub fn setup_corners(rng: &mut Rng, rep: &mut Report, sink: &mut Sink, em: Emit, continue_plies: usize) {
+    for a in 0..6u8 {
+        for b in 0..6u8 {
+            let mut g = Game::initial();
+            let mut player = Player::new(Policy::Uniform, true);
+            let g_order = army_order(rng, Some(b), Some(a));
+            let s_order = army_order(rng, Some(a), Some(b));
+            player.setup_plan = plan_of(&g_order, &s_order);
+            playout(&mut g, &mut player, 32 + continue_plies, rng, rep, sink, em);
+        }
+    }
 }
 
 /// G6: diagrams scraped from the crate's own tests and docs.
@@ -625,6 +767,52 @@ pub fn boxed_positions(rng: &mut Rng, n: usize) -> Vec<(B, bool)> {
             }
         }
         out.push((b, rng.chance(1, 2)));
+    }
+    out
+}
+
+/// Scripted double captures in one trap: a piece of type `t1` standing on a trap loses its only
+/// supporter, then a piece of type `t2` of the same colour walks onto the same trap unsupported.
+/// (A stale bit left by the first capture would re-type or mis-preview the second.)
+pub fn double_capture_scripts() -> Vec<(B, bool, Vec<(usize, usize)>)> {
+    let mut out = vec![];
+    for &t in TRAPS.iter() {
+        for g in [true, false] {
+            for t1 in 0..6u8 {
+                for t2 in 1..6u8 {
+                    for d1 in 0..4 {
+                        let d2 = (d1 + 1) % 4;
+                        let (Some(sup), Some(mid)) = (nb(t, d1), nb(t, d2)) else { continue };
+                        let Some(far) = nb(mid, d2) else { continue };
+                        // the supporter steps straight away from the trap
+                        let Some(sup_to) = nb(sup, d1) else { continue };
+                        let mut b: B = [None; 64];
+                        // rabbits cannot step backward: choose a supporter type that may move in d1
+                        let sup_type = if (g && d1 == 2) || (!g && d1 == 0) { 1 } else { 0 };
+                        if t1 == 0 && (t / 8 == 0 || t / 8 == 7) {
+                            continue;
+                        }
+                        b[t] = Some((g, t1));
+                        b[sup] = Some((g, sup_type));
+                        if t2 == t1 && (t1 == 4 || t1 == 5) {
+                            continue; // one camel / elephant per side
+                        }
+                        b[far] = Some((g, t2));
+                        // rabbits so that the game goes on
+                        for gg in [true, false] {
+                            if !b.iter().any(|c| *c == Some((gg, 0))) {
+                                let k = if gg { 32 } else { 31 };
+                                if b[k].is_none() {
+                                    b[k] = Some((gg, 0));
+                                }
+                            }
+                        }
+                        let _ = sup_to;
+                        out.push((b, g, vec![(sup, d1), (far, (d2 + 2) % 4), (mid, (d2 + 2) % 4)]));
+                    }
+                }
+            }
+        }
     }
     out
 }
